@@ -342,7 +342,7 @@ pub fn run(cfg: &Cfg) -> i32 {
             }
         }
     }
-    let nprog: usize = std::env::var("VH_NPROG").ok().and_then(|x| x.parse().ok()).unwrap_or(cfg.pick(350, 6000));
+    let nprog: usize = std::env::var("VH_NPROG").ok().and_then(|x| x.parse().ok()).unwrap_or(cfg.pick(350, 3000));
     let total = sweep.len() + nprog;
     for u in out.resume_from..total {
         out.checkpoint(u);
